@@ -257,6 +257,16 @@ func analyze(cl *cluster) *analysis {
 			}
 			continue
 		}
+		if e.Height <= e.ChainHeight {
+			// Not a rejection: the queue offered a block its ledger already
+			// holds. bqueue.Put reads the height before it takes its lock, so a
+			// copy that arrives while the ledger accepts the same block stays
+			// in the ring (cacheSize slots, here 64) and is offered once more
+			// when the ledger comes to that slot again, 64 heights later. C20
+			// counts such calls as legitimate; so does this check.
+			a.obs["stale_queue_offers_at_or_below_ledger_height"]++
+			continue
+		}
 		a.obs["addblock_errors"]++
 		c, ok := commitByHash[e.hash]
 		by := "nobody"
